@@ -238,6 +238,7 @@ func runInBubble(s Script) (res vt.Result) {
 	// late requests are recognised by the receiving middleware: ping is never sent by anything else here
 	// except keep-alive (server->client), which we exclude by only counting pings the script sent.
 	lateStarted := map[string]int{}
+	var rootsNotified atomic.Int32 // roots changes the Client passed to the sending side of one of its sessions
 	mw := func(side string) mcp.Middleware {
 		return func(next mcp.MethodHandler) mcp.MethodHandler {
 			return func(ctx context.Context, method string, req mcp.Request) (mcp.Result, error) {
@@ -257,6 +258,10 @@ func runInBubble(s Script) (res vt.Result) {
 	// already on the wire but has not been handed back to its caller.
 	client.AddSendingMiddleware(func(next mcp.MethodHandler) mcp.MethodHandler {
 		return func(ctx context.Context, method string, req mcp.Request) (mcp.Result, error) {
+			if method == "notifications/roots/list_changed" {
+				// the Client tells every session it still lists about a roots change
+				rootsNotified.Add(1)
+			}
 			out, err := next(ctx, method, req)
 			if method == "subscriptions/listen" {
 				time.Sleep(time.Millisecond)
@@ -304,6 +309,10 @@ func runInBubble(s Script) (res vt.Result) {
 		res.Failf("harness: connect did not return")
 		return
 	}
+	// (self-check of the observation used at the end: a roots change is passed to the live session)
+	client.AddRoots(&mcp.Root{URI: "file:///added-while-connected", Name: "early"})
+	synctest.Wait()
+	membershipObservable := rootsNotified.Load() == 1
 
 	type blocker struct {
 		what string
@@ -606,6 +615,17 @@ func runInBubble(s Script) (res vt.Result) {
 	}
 	if n != 0 {
 		res.Failf("the server still lists %d session(s) after the session was closed", n)
+	}
+	// "... and the session is removed from its Client": a Client tells every session it lists about a
+	// roots change (the sending middleware above sees each of those sends). Once Close has returned the
+	// session must not be among them any more.
+	rootsNotified.Store(0)
+	client.AddRoots(&mcp.Root{URI: "file:///added-after-close", Name: "late"})
+	synctest.Wait()
+	if !membershipObservable {
+		res.Class("client_membership_not_observable")
+	} else if k := rootsNotified.Load(); k != 0 {
+		res.Failf("after ClientSession.Close had returned the Client still sent a roots change to %d session(s): the closed session was not removed from its Client", k)
 	}
 	w.mu.Lock()
 	for side, tc := range w.transportClosed {
